@@ -31,6 +31,8 @@ _TRANSPARENT_SUFFIX = {
     "::skip": [0], "::step_by": [0], "::peekable": [0], "::by_ref": [0], "::zip": [0, 1], "::chain": [0, 1],
     "::collect": [0], "::last": [0], "::first": [0], "::nth": [0], "::peek": [0], "::drain": [0],
     "::values": [0], "::keys": [0], "::into_values": [0], "::into_keys": [0], "::next_back": [0],
+    "::find": [0], "::filter": [0], "::take_while": [0], "::skip_while": [0], "::min_by_key": [0], "::max_by_key": [0],
+    "::transpose": [0], "::take": [0],
     # containers
     "::index": [0], "::index_mut": [0], "::get": [0], "::get_mut": [0], "::get_unchecked": [0],
     "::pop": [0], "::remove": [0], "::swap_remove": [0], "::split_at": [0], "::concat": [0],
